@@ -180,6 +180,7 @@ pub fn plan(p: u32, tier: &str) -> Vec<Run> {
             add(split("merge", false), families::merge_outputs());
             add(late("latepair", true), families::with_declaration_variants(families::late_pair()));
             add(late("bigshapes", true), families::with_declaration_variants(families::big_shapes()));
+            add(late("ephdeep", true), families::with_declaration_variants(families::eph_deep_trees()));
             add(late("ephtrees", true), families::with_declaration_variants(families::eph_trees()));
             add(late("ephtrees3", true), families::with_declaration_variants(families::eph_trees3()));
             add(chains(true), families::chains(6));
@@ -191,6 +192,7 @@ pub fn plan(p: u32, tier: &str) -> Vec<Run> {
             add(ig, families::slots_ignore(3));
             add(rename("rename-prod", Conv::Parts, Cmp::Prod), families::rename_opts(true, Kind::O, false));
             add(rename("rename-test", Conv::JobIds, Cmp::Plain), families::rename_opts(false, Kind::O, false));
+            add(rename("rename3-prod", Conv::Parts, Cmp::Prod), families::rename3());
             add(deep3("S3D4-ff", 4, vec![false; 4]), families::slots(3));
             add(deep3("S3D3-f010", 3, vec![false, true, false]), families::slots(3));
             let mut d43 = deep3("S4D3-k1-ff", 3, vec![false; 3]);
@@ -238,6 +240,7 @@ pub fn plan(p: u32, tier: &str) -> Vec<Run> {
             add(late3u(1), families::late3xu_oe());
             add(late("latepair", true), families::with_declaration_variants(families::late_pair()));
             add(late("bigshapes", true), families::with_declaration_variants(families::big_shapes()));
+            add(late("ephdeep", true), families::with_declaration_variants(families::eph_deep_trees()));
             add(late("ephtrees", true), families::with_declaration_variants(families::eph_trees()));
             add(late("ephtrees3", true), families::with_declaration_variants(families::eph_trees3()));
             add(chains(true), families::chains(6));
@@ -299,6 +302,7 @@ pub fn plan(p: u32, tier: &str) -> Vec<Run> {
             add(late("late2x", true), families::late_gadget(2, true));
             add(late("latepair", true), families::with_declaration_variants(families::late_pair()));
             add(late("bigshapes", true), families::with_declaration_variants(families::big_shapes()));
+            add(late("ephdeep", true), families::with_declaration_variants(families::eph_deep_trees()));
             add(late("ephtrees", true), families::with_declaration_variants(families::eph_trees()));
             add(late("ephtrees3", true), families::with_declaration_variants(families::eph_trees3()));
             add(chains(true), families::chains(6));
@@ -307,6 +311,7 @@ pub fn plan(p: u32, tier: &str) -> Vec<Run> {
             add(cm, families::chains_multi(4, 2));
             add(rename("rename-prod", Conv::Parts, Cmp::Prod), families::rename_opts(true, Kind::O, false));
             add(rename("rename-test", Conv::JobIds, Cmp::Plain), families::rename_opts(false, Kind::O, false));
+            add(rename("rename3-prod", Conv::Parts, Cmp::Prod), families::rename3());
             add(noise("S3D2-noise", 2, false, false), families::slots(3));
             add(noise("S3D3-noise-E-consumers", 3, false, false), slots_matching(3, &["EOO", "EEO", "AEO"]));
             // comparisons that depend on the direction of the question and on the job ids it is asked for
@@ -384,6 +389,7 @@ pub fn plan(p: u32, tier: &str) -> Vec<Run> {
             l4.edit_bound = Some(1);
             add(l4, families::late4_row());
             add(late("bigshapes", true), families::with_declaration_variants(families::big_shapes()));
+            add(late("ephdeep", true), families::with_declaration_variants(families::eph_deep_trees()));
             add(late("ephtrees", true), families::with_declaration_variants(families::eph_trees()));
             add(late("ephtrees3", true), families::with_declaration_variants(families::eph_trees3()));
             add(chains(true), families::chains(6));
@@ -460,6 +466,7 @@ pub fn plan(p: u32, tier: &str) -> Vec<Run> {
             l4.edit_bound = Some(1);
             add(l4, families::late4_row());
             add(late("bigshapes", true), families::with_declaration_variants(families::big_shapes()));
+            add(late("ephdeep", true), families::with_declaration_variants(families::eph_deep_trees()));
             add(late("ephtrees", true), families::with_declaration_variants(families::eph_trees()));
             add(late("ephtrees3", true), families::with_declaration_variants(families::eph_trees3()));
             add(chains(true), families::chains(6));
@@ -522,6 +529,7 @@ pub fn plan(p: u32, tier: &str) -> Vec<Run> {
             l4.edit_bound = Some(1);
             add(l4, families::late4_row());
             add(late("bigshapes", true), families::with_declaration_variants(families::big_shapes()));
+            add(late("ephdeep", true), families::with_declaration_variants(families::eph_deep_trees()));
             add(late("ephtrees", true), families::with_declaration_variants(families::eph_trees()));
             add(late("ephtrees3", true), families::with_declaration_variants(families::eph_trees3()));
             add(chains(true), families::chains(6));
@@ -661,6 +669,7 @@ pub fn plan(p: u32, tier: &str) -> Vec<Run> {
             add(late("late2x", true), families::late_gadget(2, true));
             add(late("latepair", true), families::with_declaration_variants(families::late_pair()));
             add(late("bigshapes", true), families::with_declaration_variants(families::big_shapes()));
+            add(late("ephdeep", true), families::with_declaration_variants(families::eph_deep_trees()));
             add(late("ephtrees", true), families::with_declaration_variants(families::eph_trees()));
             add(late("ephtrees3", true), families::with_declaration_variants(families::eph_trees3()));
             add(chains(true), families::chains(6));
@@ -775,6 +784,7 @@ pub fn plan(p: u32, tier: &str) -> Vec<Run> {
             add(late3u(1), families::late3xu_oe());
             add(late("latepair", true), families::with_declaration_variants(families::late_pair()));
             add(late("bigshapes", true), families::with_declaration_variants(families::big_shapes()));
+            add(late("ephdeep", true), families::with_declaration_variants(families::eph_deep_trees()));
             add(late("ephtrees", true), families::with_declaration_variants(families::eph_trees()));
             add(late("ephtrees3", true), families::with_declaration_variants(families::eph_trees3()));
             add(chains(true), families::chains(6));
@@ -841,6 +851,7 @@ pub fn plan(p: u32, tier: &str) -> Vec<Run> {
             add(few(late("late2x-ff-orders-few", false)), families::late_gadget(2, true));
             add(few(late("latepair-ff-orders-few", false)), families::late_pair());
             add(few(late("bigshapes-ff-orders-few", false)), families::big_shapes());
+            add(few(late("ephdeep-ff-orders-few", false)), families::eph_deep_trees());
             add(few(late("ephtrees-ff-orders-few", false)), families::eph_trees());
             add(few(late("ephchainsA-ff-orders-few", false)), families::eph_chains_below_always());
             // a resume evaluation (build, one change with every fault, evaluate again) must be as independent
@@ -935,6 +946,7 @@ pub fn plan(p: u32, tier: &str) -> Vec<Run> {
             l4.edit_bound = Some(1);
             add(l4, families::late4_row());
             add(late("bigshapes", true), families::with_declaration_variants(families::big_shapes()));
+            add(late("ephdeep", true), families::with_declaration_variants(families::eph_deep_trees()));
             add(late("ephtrees", true), families::with_declaration_variants(families::eph_trees()));
             add(late("ephtrees3", true), families::with_declaration_variants(families::eph_trees3()));
             add(chains(true), families::chains(6));
@@ -991,6 +1003,7 @@ pub fn plan(p: u32, tier: &str) -> Vec<Run> {
             add(deep3("S3D3-f010", 3, vec![false, true, false]), families::slots(3));
             add(rename("rename-prod", Conv::Parts, Cmp::Prod), families::rename_opts(true, Kind::O, false));
             add(rename("rename-test", Conv::JobIds, Cmp::Plain), families::rename_opts(true, Kind::O, false));
+            add(rename("rename3-prod", Conv::Parts, Cmp::Prod), families::rename3());
             if thorough {
                 add(s3d3(), families::slots(3));
                 add(rename("rename-prod-full", Conv::Parts, Cmp::Prod), families::rename(true, Kind::O));
@@ -1355,6 +1368,8 @@ pub fn cmd_run(args: &[String]) -> i32 {
         "unread3" => families::slots_unread_edge(3),
         "volatile3" => families::slots_volatile(3),
         "volatile4" => families::slots_volatile(4),
+        "ephdeep" => families::eph_deep_trees(),
+        "rename3" => families::rename3(),
         "splitrename" => families::split_rename(),
         "merge" => families::merge_outputs(),
         "splitO" => families::split_outputs(Kind::O, false),
